@@ -8,8 +8,10 @@ TB = ("Trusted: the pyvc AST evaluator's semantics of the Python subset (checked
 CHECKS = {
  'C01': ('proof', "Contracts on the real sha.py/md.py/padding.py code, VCs generated from the AST on every run: component formulas, one-iteration compression == FIPS/RFC compression for all state/block values (10 algorithms), IV and constant tables, last-block padding for every tail length and bit residue with unbounded symbolic counters - all discharged (class L/E). The composition through the block iterator is a bounded stand-in (class B: messages up to 2 blocks, contents symbolic) and is not counted as proved.",
          'sidecar contracts + AST-to-z3 verification conditions; loop-body contract for the compression; bounded composition'),
- 'C02': ('proof', "AES: gmul on all 65536 pairs and both S-box tables by complete enumeration (E); every round layer, AddRoundKey and the key schedule (Nk=4,6,8) against FIPS 197 for all states/keys; enc/dec as compositions over those contracts (L). Size rejection for key/block lengths 0..40 (B).",
+ 'C02': ('proof', "AES: gmul on all 65536 pairs and both S-box tables by complete enumeration (E); every round layer, AddRoundKey and the key schedule (Nk=4,6,8) against FIPS 197 for all states/keys; enc/dec as compositions over those contracts (L). DES: all S-box entries (E), IP/IPinv/PC1/PC2/E/P, the 16 round keys and the cipher function F for all (R,key) against FIPS 46-3, the Feistel composition, TDEA for every accepted key form (L). Serpent: the 8 bit-slice S-boxes and inverses, the linear transform, the key schedule for every key length 0..32 bytes, enc/dec over arbitrary round keys (L). Threefish-256/512/1024: MIX/MIXinv for every (round, position), subkeys for every s, enc/dec composition (L). Rejection of undefined key/tweak/block sizes for the listed sizes (B).",
          'sidecar contracts + AST-to-z3 verification conditions; layer lemmas and composition over opaque layer contracts; exhaustive enumeration of finite tables'),
+ 'C03': ('proof', "Inverse pairs proved on the code's own tables and formulas (independent of the specification): AES S-box tables (E), ShiftRows/MixColumns/SubBytes pairs, AddRoundKey involution, DES IP/IPinv, Serpent _S/_Sinv (8 boxes), _IP/_FP, _L/_Linv, Threefish MIX/MIXinv for every rotation constant and pi/piinv, Salsa/ChaCha index maps (E) - all for every state value (L). Cipher-level round trips dec(enc(B))==B==enc(dec(B)) for AES-128/192/256, DES, TDEA (all key forms), Serpent, Threefish-256/512/1024 with symbolic key, tweak and block are lemmas over the layer contracts plus those inverse lemmas (L). rol/ror exactness and mutual inversion for widths up to 128 (quick) is bounded in width (B).",
+         'sidecar contracts + AST-to-z3 verification conditions; round trips as lemmas over layer contracts with proved inverse lemmas applied as rewrites'),
  'C08': ('proof', "Bits operator contracts taken from the (value,size) model in the property, evaluated on the real bits.py through the AST evaluator with symbolic values of the whole range for each concrete operand size in a stated list (bounded in width: class B), plus exhaustive enumeration (E) of int-valued selection assignment. Complete in values, bounded in width.",
          'sidecar contracts + AST-to-z3 verification conditions per operand size (bounded in width, complete in values)'),
 }
